@@ -112,6 +112,15 @@ def clamp (c : Option (Nat × Nat)) (x : Nat) : Option Nat :=
   | some (a, v) => some (if x < a then v else x)
   | none => none
 
+/-- `loadVerifyConfigFile`: the value the limiter is built with — the file's value (`some`), else the
+default, then the clamp -/
+def effective (dflt : Option Nat) (c : Option (Nat × Nat)) (configured : Option Nat) : Option Nat :=
+  match configured with
+  | some x => clamp c x
+  | none => match dflt with
+    | some d => clamp c d
+    | none => none
+
 /-! ## (b) per-user TOTP limiter -/
 
 def sec : Int := 1000000000
@@ -209,6 +218,39 @@ def stepOld : Totp → Attempt → Totp × Outcome := stepWith lockNextOld
 def tight (s : Totp) (now : Int) : Bool :=
   decide (s.lastCheck + spacingNs = now) || decide (s.lockoutExp = now) || decide (s.lastFail + resetNs = now)
 
+/-! ### the periodic state cleanup and the limiter table
+
+`performStateCleanup` (every 30 s) deletes expired entries of `pendingOauth2`, `localAuthData` and
+`vipPushCookie`; it does not touch `totpLocalRateLimit`, so in the model a cleanup pass is the
+identity on `Totp`. Deleting a map entry means the next read sees the zero value (`pruned`). Which
+entries *could* be deleted without anybody ever noticing is `prunable`: past the spacing, no
+lock-out pending and **no failure counted**. -/
+
+/-- what `validateUserTOTP` reads after `delete(state.totpLocalRateLimit, user)`: the zero value; the
+accepted step lives in the user's profile and stays -/
+def pruned (s : Totp) : Totp := { Totp.init with lastSuccCounter := s.lastSuccCounter }
+
+def prunable (s : Totp) (now : Int) : Bool :=
+  decide (s.lastCheck + spacingNs ≤ now) && decide (s.lockoutExp ≤ now) && decide (s.failCount = 0)
+
+/-- the seeded "idle" test: no lock-out pending and past the spacing — but blind to `failCount` -/
+def idle (s : Totp) (now : Int) : Bool :=
+  !decide (s.lockoutExp > now) && decide (s.lastCheck + spacingNs < now)
+
+/-- single user: the outcomes of a list of attempts -/
+def outs (f : Totp → Attempt → Totp × Outcome) : Totp → List Attempt → List Outcome
+  | _, [] => []
+  | s, a :: as => (f s a).2 :: outs f (f s a).1 as
+
+def finalS (f : Totp → Attempt → Totp × Outcome) : Totp → List Attempt → Totp
+  | s, [] => s
+  | s, a :: as => finalS f (f s a).1 as
+
+/-- attempt times `lo ≤ t₁ ≤ t₂ ≤ …` -/
+def NonDecrA : Int → List Attempt → Prop
+  | _, [] => True
+  | lo, a :: as => lo ≤ a.now ∧ NonDecrA a.now as
+
 /-! ### many users: `totpLocalRateLimit` is a map keyed by user name -/
 
 def upd {U : Type} [DecidableEq U] {V : Type} (m : U → V) (u : U) (v : V) : U → V :=
@@ -287,6 +329,12 @@ def monStep (m : Mon) (now : Int) (out : Outcome) : Mon × Verdict :=
 what it demands of the implementation does not move with the source; `c14_monitor_spec` shows that
 it is `monStep` on the current tree. -/
 namespace Spec
+
+/-- the floor of the property's anchor: burst ≥ 10, rate ≥ 1/s; above it the *configured* values rule -/
+def minBurst : Nat := 10
+def minRateMilli : Nat := 1000
+def enforcedBurst (configured : Nat) : Nat := max configured minBurst
+def enforcedRateMilli (configured : Nat) : Nat := max configured minRateMilli
 
 def spacingNs : Int := 2 * sec
 def resetNs : Int := 86400 * sec
